@@ -12,6 +12,13 @@ pub fn run(ctx: &vcore::Ctx) -> ! {
     let v = v.get("witness").cloned().unwrap_or(v);
     let v = v.get("scn").cloned().unwrap_or(v);
     let scn = Scn::from_json(&v).expect("scn");
+    let scn = if let Some(class) = ctx.rest.get(1) {
+        let m = crate::oracle::minimise(&scn, class, 60000, 5000);
+        println!("minimised: {}", serde_json::to_string(&m.to_json()).unwrap());
+        m
+    } else {
+        scn
+    };
     println!("scn: {}", scn.canon());
     let o = run_scn(&scn, 5000);
     for p in &o.pkts {
